@@ -7,7 +7,9 @@ R1  (sign/range domain) the timespec handed to the kernel wait has tv_sec >= 0 a
  reports a timeout, so it is deliberately not required - selftest/benign/C15-waitn-no-shortcircuit.diff must stay silent.)
 R3  no early timeout: ETIMEDOUT is defined only under result=-1, errno=ETIMEDOUT and deadline<=now (shared with C12.R3), and the
     kernel gets no timeout only for nsync_time_no_deadline (C12.R5).
-Exactness of nsync_time_cmp/add themselves is C18; promptness in wall-clock terms is not decided."""
+R4  nsync_time_add keeps the nanosecond field normalised (the deadlines the library and its callers compute are valid kernel timeouts).
+R5  nsync_time_cmp orders every representable pair, extremes included (shared engine with C18).
+Promptness in wall-clock terms is not decided."""
 from .. import util, ir as IR, futexmodel
 from ..bounds import _guards, _norm_cmp
 from ..report import Violation, AnalysisBroken
@@ -50,6 +52,17 @@ def run(ctx, rep):
     if n == 0:
         raise AnalysisBroken('C15.R1: no kernel wait found in the timed P')
     C12.check_timeout_guards(mod, K, rep, 'C15.R3')
+    # R4/R5: the deadline values the library itself computes and compares.  R1 assumes a normalised nanosecond field; deadlines are produced by
+    # nsync_time_add (callers, once.c) and reach the kernel unchanged, so add must keep the field in [0,1e9) (tv_nsec = 1e9 is EINVAL ->
+    # the errno ASSERT crashes).  Every timed operation orders its deadline against now / zero / another deadline with nsync_time_cmp, for
+    # every representable pair including nsync_time_no_deadline and instants before the epoch: a comparison that wraps reports an expired
+    # deadline as future (hang) or a future one as expired (early timeout).
+    from . import C18
+    rep.rule('C15.R4', 'nsync_time_add yields a normalised nanosecond field for normalised operands (deadlines it produces are valid kernel timeouts)')
+    rep.rule('C15.R5', 'nsync_time_cmp orders every pair of representable times, including no_deadline and pre-epoch instants (no wrap)')
+    C18.check(ctx, rep, {'addsub': 'C15.R4', 'cmp': 'C15.R5'}, addsub=(('nsync_time_add', 1),))
+    rep.floor('C15.R4', 2)
+    rep.floor('C15.R5', 6)
     rep.assumptions += ['deadlines have a normalised nanosecond field (0 <= ns < 1e9), as the property states for nsync_time values',
                         'seconds are represented by sign classes {very negative, -2, -1, 0, 1, very large}: the code only compares them with 0',
                         'only the futex back-end built on this platform is analysed']
